@@ -9,6 +9,7 @@ import derived
 import reader_extra
 import layout_rules
 import hll_rules
+import quantile_rules
 import json, os
 from vlib.core import VERIF
 
@@ -59,6 +60,10 @@ def run(facts, tier):
     obs += o
     rules.append({"rule": "rest state", "instances": len(o), "min": 4,
                   "text": "state an image does not carry (VarOpt's transient M region, the all-slots-constructed flag) is restored to the value a live object has at rest"})
+    o = quantile_rules.level_capacity(facts)
+    obs += o
+    rules.append({"rule": "level capacity", "instances": len(o), "min": 3,
+                  "text": "every quantiles level that starts empty is reserved to k before it becomes part of a restored sketch (zip_buffer takes k from the capacity): a restored sketch keeps accepting updates"})
     o = derived.obligations(facts)
     obs += o
     rules.append({"rule": "derived fields", "instances": len(o), "min": 18,
